@@ -689,7 +689,19 @@ def run_check(prop_id, tier="quick", seed=0, replay=None):
     xper, xmax = (3, 120) if tier == "thorough" else (1, 40)
     cheap = []          # (case, impl result) of fast cases, for the history-independence re-run below
     okpool = {}         # op -> accepted cases of any cost
-    for c in cases:
+    # time budget of the SEARCH: once disagreements have been found (so the verdict is "violation" whatever else happens) the
+    # remaining cases and the variant re-runs are dropped when the budget is used up - a broken obligation escalates the case
+    # counts to the thorough tier, and code that disagrees everywhere (e.g. a racy loop) makes each case expensive.  A run
+    # WITHOUT disagreements is never cut short.
+    budget = float(os.environ.get("VERIF_SEARCH_BUDGET", "600" if tier == "quick" else "5400"))
+
+    def over_budget():
+        return bool(disagreements) and time.time() - t0 > budget
+    for ci, c in enumerate(cases):
+        if over_budget():
+            stats.setdefault("extra", {})["stopped_early"] = "%d of %d cases not evaluated: %d disagreements found, search budget %ds used up" \
+                % (len(cases) - ci, len(cases), len(disagreements), int(budget))
+            break
         _t0 = time.time()
         ir, mr = eval_case(c)
         _dt = time.time() - _t0
@@ -726,7 +738,7 @@ def run_check(prop_id, tier="quick", seed=0, replay=None):
 
     # ---- history independence: re-run a sample of cases in another order; a pure function of its input must answer
     #      the same whatever was called before (catches state carried between calls: caches, mutable defaults) ----
-    if cheap and not getattr(prop, "HISTORY_DEPENDENT_OK", False):
+    if cheap and not getattr(prop, "HISTORY_DEPENDENT_OK", False) and not over_budget():
         rs = random.Random("rerun-%s-%s" % (prop_id, seed))
         sample = rs.sample(cheap, min(len(cheap), 400 if tier == "thorough" else 150))
         rs.shuffle(sample)
